@@ -119,7 +119,20 @@ chk("C17", "envx", "exploration",
     "output handlers are replaced by a recorder (what is handed to write() is checked, not the files).",
     "DESIGN.md §5/C17")
 
+chk("C19", "crashx", "fault_enumeration",
+    "crash/dump-point enumeration: every dump written by seeded reference runs (8-10 configurations x heap/list "
+    "scheduler, real DumpingOutputHandler and Mersenne Twister) is restored in a fresh interpreter exactly as "
+    "resume.py does and the continuation is compared event by event, bit for bit, with the uninterrupted run; "
+    "run-with-dumps == run-without-dumps",
+    "All dump points of each reference run are resumed (no sampling of dump points); observation is by class-level "
+    "patches so the dump contains no harness object; one configuration has commensurate intervals (exact ties) so "
+    "that the scheduler's internal layout matters.",
+    "A few seeds per configuration (the enumeration is over dump points); same interpreter and platform for dump and "
+    "resume; runs of 100-250 events (quick).", "DESIGN.md §5/C19")
+
 ENGINES = [
+    {"name": "crashx", "path": "jfv/crashx.py", "serves_properties": ["C19"],
+     "kind_free_text": "dump-point enumeration: reference run + fresh-interpreter resume of every dump, log equality"},
     {"name": "envx", "path": "jfv/envx.py", "serves_properties": ["C07", "C08", "C09", "C11", "C12", "C13", "C17", "C01",
                                                                     "C04"],
      "kind_free_text": "stateless deviation-bounded exploration of the real event loop under a scripted random seam "
